@@ -459,11 +459,13 @@ struct ProgRun {
     uint64_t boundaries = 0;
     uint64_t reuseBefore = 0;  // model reuse events before the op that has just been applied
     int deferredAtOp = -1;     // a destructor error is due at the start of this op
+    uint64_t resyncs = 0;      // lockstep mismatches owned by another property after which the model adopted the observed state
     bool echoOff = false;
     sim::Hash evlog;
     std::string property;
 };
 ProgRun* g_pr = nullptr;
+bool ownsFwd(const std::string& property, const std::string& owner, const std::string& cls);
 
 qh::Observation observe(runtime::RuntimeEvaluator* ev) {
     qh::Observation ob;
@@ -527,9 +529,13 @@ void boundaryChecks(ProgRun& pr, const qh::Observation& ob, int done) {
             else if (last->kind == qh::RESET || last->kind == qh::DROP) owner = "C04";
             else if (qh::isDecl(last->kind) || last->kind == qh::CYCLE) owner = I.reuseEvents > pr.reuseBefore ? "C04" : "C03";
         }
-        push("state_mismatch_after_" + after, owner, "op " + std::to_string(done) + ": distance " + refq::fd(d) + " between evaluator state and reference model");
-        pr.desync = true;
-        return;
+        std::string cls = "state_mismatch_after_" + after;
+        push(cls, owner, "op " + std::to_string(done) + ": distance " + refq::fd(d) + " between evaluator state and reference model");
+        if (ownsFwd(pr.property, owner, cls)) { pr.desync = true; return; }
+        // another property's oracle fired (that property's check reports it). The observed state is a valid unit
+        // vector of the right size, so the model adopts it and the run goes on: later operations can still be judged.
+        I.sv.a = ob.state;
+        ++pr.resyncs;
     }
     // C03: handle map - every live declaration denotes the simulator qubits it was created for
     std::map<int, std::string> owner;
@@ -872,10 +878,14 @@ bool stateLevel(const std::string& cls) {
 }
 bool owns(const std::string& property, const std::string& owner, const std::string& cls) {
     if (owner == property) return true;
+    // C03: "previously allocated qubits keep their state when a new qubit is allocated", also when the new
+    // declaration recycles an index (the implicit reset then is C04's, the disturbance of the others is C03's)
+    if (property == "C03" && (cls == "state_mismatch_after_decl" || cls == "state_mismatch_after_declarr" || cls == "state_mismatch_after_newobj1" || cls == "state_mismatch_after_newobj2" || cls == "state_mismatch_after_alias")) return true;
     if (property == "C05" && stateLevel(cls) && (owner == "C02" || owner == "C03" || owner == "C04")) return true;
     if (property == "C03" && (cls == "norm_not_one" || cls == "non_finite_amplitude" || cls == "state_size_wrong")) return true;
     return false;
 }
+bool ownsFwd(const std::string& property, const std::string& owner, const std::string& cls) { return owns(property, owner, cls); }
 std::string ownerOf(const std::vector<qh::Finding>& f, const std::string& property, qh::Finding& first) {
     for (auto& x : f)
         if (owns(property, x.owner, x.cls)) { first = x; return x.cls; }
@@ -1087,14 +1097,14 @@ void runOne(const sim::Options& opt, uint64_t run, sim::RunReport& rep) {
             if (o.kind == qh::MEAS_EXPR && o.bitvar >= 0) defined.insert(o.bitvar);
             if (o.kind == qh::IFGATE && !defined.count(o.cond)) return false;
         }
-        qh::Plan c;
+        qh::Plan c = plan;
         c.ops = ops;
         std::string d;
         if (cliCls) { std::string dd; return !cliQasmFileCheck(c, (run % 16 == 1) ? 0 : 2, dd); }
         return progClass(c, property, opt.seed, run, d) == cls;
     };
     std::vector<qh::Op> min = sim::ddmin<qh::Op>(plan.ops, fails, budget);
-    qh::Plan mp;
+    qh::Plan mp = plan;
     mp.ops = min;
     std::string d1, d2;
     std::string c1, c2;
